@@ -49,6 +49,8 @@ def cases(tier, seed):
     # batches of more than a megabyte of samples (hundreds of samples x thousands of traces) against the same traces in short batches
     for j, name in enumerate(('anova', 'snr', 'nicv', 'cpa', 'dpa', 'mia', 'ttacc') if tier == 'quick' else ('anova', 'snr', 'nicv', 'cpa', 'dpa', 'mia', 'ttacc', 'cpa_alt', 'anova', 'snr', 'tbuild')):
         out.append(dict(gen='hist', subject=name, precision='float64', regime='E', bigframe=True, sub=core.subseed('C01bf', seed, j), must=True, placements='allgaps', prefix=False))
+    for j, name in enumerate(('cpa', 'dpa', 'anova', 'snr', 'mia', 'ttacc', 'tbuild', 'nicv')):
+        out.append(dict(gen='hist', subject=name, precision=['float32', 'float64'][j % 2], regime='E', mixedtypes=True, sub=core.subseed('C01mx', seed, j), must=True, placements='allgaps', prefix=False))
     n_rand = 220 if tier == 'quick' else 9000
     weights = np.array([4 if s in CHEAP else 1 for s in subjects.SUBJECTS], dtype=float)
     weights /= weights.sum()
@@ -165,7 +167,7 @@ def _placements(mode, nb, rng):
     return [sorted(rng.choice(gaps, size=k, replace=False).tolist()), gaps]
 
 
-def _run_history(t, spec, traces, data, sizes, compute_gaps, kernels=None):
+def _run_history(t, spec, traces, data, sizes, compute_gaps, kernels=None, bdts=None):
     obj = subjects.make(spec)
     if kernels is not None:
         CONTROL.force(obj, kernels)
@@ -173,7 +175,7 @@ def _run_history(t, spec, traces, data, sizes, compute_gaps, kernels=None):
     inter = {}
     pos = 0
     for g, s in enumerate(sizes):
-        cs.update(traces[pos:pos + s], None if data is None else data[pos:pos + s])
+        cs.update(traces[pos:pos + s] if bdts is None else traces[pos:pos + s].astype(bdts[g]), None if data is None else data[pos:pos + s])
         pos += s
         if g in compute_gaps:
             inter[g] = subjects.results(obj, spec)
@@ -232,10 +234,18 @@ def run_case(case):
             scales = tol.result_scale(spec, traces, data)
             if name in ('dpa', 'ttacc', 'tbuild'):
                 natural = float(np.max(np.abs(traces.astype(float)))) + 1e-30
+    bdts = None
+    if regime == 'E' and name not in ('tstatic', 'tdpa') and nb >= 2 and (case.get('mixedtypes') or rng.random() < 0.15):
+        # the batches of one run come in different sample types (all of them hold the values exactly): same sums, same results
+        lo_, hi_ = float(np.min(traces)), float(np.max(traces))
+        ok_ = [d for d in ('int8', 'uint8', 'int16', 'uint16', 'int32', 'int64') if np.iinfo(d).min <= lo_ and hi_ <= np.iinfo(d).max] + ['float64'] + (['float32'] if max(abs(lo_), abs(hi_)) < 2 ** 24 else [])
+        bdts = [ok_[int(rng.integers(len(ok_)))] for _ in sizes]
+        info['batch_sample_types'] = bdts
+        t.count('mixed_sample_type_histories')
     # A: one shot
     _, ra, _ = _run_history(t, spec, traces, data, [n], set(), kernels=[int(rng.integers(2))] if kern else None)
     # B: split
-    objb, rb, _ = _run_history(t, spec, traces, data, sizes, set(), kernels=list(kseq) if kern else None)
+    objb, rb, _ = _run_history(t, spec, traces, data, sizes, set(), kernels=list(kseq) if kern else None, bdts=bdts)
     if name in ('tstatic', 'tdpa'):
         scales = _template_scales(objb, spec, traces, data, prec)
         natural = 10.0
@@ -244,7 +254,7 @@ def run_case(case):
         _cmp(t, regime, ra, rb, scales, n, prec, 'split_differs_from_one_batch', info, natural)
     # C: computes inserted
     for gaps in _placements(case['placements'], nb, rng)[:15]:
-        _, rc, inter = _run_history(t, spec, traces, data, sizes, set(gaps), kernels=list(kseq) if kern else None)
+        _, rc, inter = _run_history(t, spec, traces, data, sizes, set(gaps), kernels=list(kseq) if kern else None, bdts=bdts)
         t.count('compute_transparency')
         inf2 = dict(info, compute_after_batches=gaps)
         # identical updates and kernels: the float operations are the same, so this is expected bit-identical;
